@@ -33,7 +33,9 @@ class Hist(object):
     def _call(self, fn, *a, **k):
         try:
             with warnings.catch_warnings():
-                warnings.simplefilter("ignore")
+                # (warnings_as_errors: the caller runs with -W error; an operation that "completes without error"
+                # must not depend on the warnings filter)
+                warnings.simplefilter("error" if getattr(self, "warnings_as_errors", False) else "ignore")
                 if self.tr is not None:
                     with I.tracing(self.tr):
                         fn(*a, **k)
@@ -94,6 +96,46 @@ class Hist(object):
             finally:
                 if os.path.exists(path):
                     os.remove(path)
+            return None
+        if kind == "queries":
+            # read-only questions: Gantt intervals / chart rows of every object and the state queries
+            def ask():
+                import datetime as _dt
+                init, unit = _dt.datetime(2021, 3, 1, 8, 0, 0), _dt.timedelta(hours=1)
+                for t in p.workflow.task_list:
+                    t.get_time_list_for_gannt_chart()
+                    t.get_time_list_for_gannt_chart(finish_margin=0.5)
+                for c in p.product.component_list:
+                    c.get_time_list_for_gannt_chart()
+                for tm in p.organization.team_list:
+                    for w in tm.worker_list:
+                        w.get_time_list_for_gannt_chart()
+                for wp in p.organization.workplace_list:
+                    for f in wp.facility_list:
+                        f.get_time_list_for_gannt_chart()
+                p.workflow.create_data_for_gantt_plotly(init, unit)
+                p.product.create_data_for_gantt_plotly(init, unit)
+                p.organization.create_data_for_gantt_plotly(init, unit)
+                times = [0, max(0, p.time - 1)]
+                p.workflow.extract_working_task_list(times)
+                p.workflow.extract_finished_task_list(times)
+                p.product.extract_working_component_list(times)
+                for tm in p.organization.team_list:
+                    tm.extract_working_worker_list(times)
+            return self._call(ask)
+        if kind in ("deepcopy", "pickle"):
+            # the project is duplicated with the copy protocol (the original stays alive) and the COPY is used from now on
+            import copy as _copy
+            import pickle as _pickle
+            self._kept_alive = getattr(self, "_kept_alive", []) + [p]
+            box = {}
+
+            def dup():
+                box["q"] = _copy.deepcopy(p) if kind == "deepcopy" else _pickle.loads(_pickle.dumps(p))
+            err = self._call(dup)
+            if err:
+                return err
+            self.p = box["q"]
             return None
         if kind == "reload":
             # write the project and read the file back into the SAME BaseProject object
